@@ -4,6 +4,7 @@ import IwModel.Model.Arr
 import IwModel.Model.Avl
 import IwModel.Model.Ring
 import IwModel.Model.XStr
+import IwModel.Model.XStrMem
 import IwModel.Model.Pool
 /-! `drv c18`: the container models behind the op-line protocol of harness/h_c18.c. -/
 namespace Drv.C18
@@ -257,9 +258,15 @@ def xsStep (s : St) (ws : List String) : St × String :=
     | ["shift", n] => ({ s with xs := some (XStr.shift x (natArg n)) }, "shift")
     | ["pop", n] => ({ s with xs := some (XStr.pop x (natArg n)) }, "pop")
     | ["insert", p, h] => let (x', ok) := XStr.insert x (natArg p) (hexArg h); ({ s with xs := some x' }, s!"insert {err ok}")
-    | ["printf", h, v] => ({ s with xs := some (XStr.cat x (XStr.fmt (hexArg h) (intArg v))) }, "printf 0")
+    | ["printf", h, v] =>
+      -- through the 1024-byte stack buffer / heap buffer switch of `iwxstr_printf_va`
+      match XStr.printfBytes (XStr.fmt (hexArg h) (intArg v)) with
+      | none => (s, "FAULT")
+      | some b => ({ s with xs := some (XStr.cat x b) }, "printf 0")
     | ["iprintf", p, h, v] =>
-      let (x', ok) := XStr.insert x (natArg p) (XStr.fmt (hexArg h) (intArg v)); ({ s with xs := some x' }, s!"iprintf {err ok}")
+      match XStr.printfBytes (XStr.fmt (hexArg h) (intArg v)) with
+      | none => (s, "FAULT")
+      | some b => let (x', ok) := XStr.insert x (natArg p) b; ({ s with xs := some x' }, s!"iprintf {err ok}")
     | ["clear"] => ({ s with xs := some (XStr.clear x) }, "clear")
     | ["setsize", n] => let x' := XStr.setSize x (natArg n); ({ s with xs := some x' }, s!"setsize 0 size={x'.data.length} asize={x'.asize}")
     | ["clone"] => (s, "clone" ++ xsDump (XStr.clone x))
